@@ -289,6 +289,37 @@ pub fn apply(op: &Op) {
             lib(|| unsafe { Rc::decrement_strong_count(p) });
             arena::restore_ctx(prev);
         }
+        Op::WeakIntoRaw(sel) => {
+            let n = wd.model.borrow().wroots.len();
+            let Some(i) = pick(*sel, n) else { return noop() };
+            let lw = wd.wroots.borrow_mut().remove(i);
+            let t = wd.model.borrow_mut().wroots.remove(i);
+            let lw = ManuallyDrop::new(lw);
+            let wk: cactusref::Weak<Node> = unsafe { std::ptr::read(&*lw.w) };
+            let prev = set_phase(crate::exec::Phase::WeakCall);
+            let ap = wk.as_ptr();
+            let p = lib(|| wk.into_raw());
+            crate::exec::shared().phase = prev;
+            if p != ap {
+                violate(View::Weak, "Weak::into_raw returned a pointer different from Weak::as_ptr");
+            }
+            if t != NONE && p as usize != wd.model.borrow().objs[t as usize].value_addr {
+                violate(View::Weak, &format!("Weak::into_raw of a Weak to object {} does not point at its value", t));
+            }
+            wd.wraws.borrow_mut().push(p);
+            wd.model.borrow_mut().wraws.push(t);
+        }
+        Op::WeakFromRaw(sel) => {
+            let n = wd.model.borrow().wraws.len();
+            let Some(i) = pick(*sel, n) else { return noop() };
+            let p = wd.wraws.borrow_mut().remove(i);
+            let t = wd.model.borrow_mut().wraws.remove(i);
+            let prev = set_phase(crate::exec::Phase::WeakCall);
+            let wk = lib(|| unsafe { cactusref::Weak::from_raw(p) });
+            crate::exec::shared().phase = prev;
+            wd.model.borrow_mut().wroots.push(t);
+            wd.wroots.borrow_mut().push(LoggedWeak::new(wk, t));
+        }
         Op::DropLoose(sel) => {
             let n = wd.loose.borrow().len();
             let Some(i) = pick(*sel, n) else { return noop() };
@@ -312,6 +343,13 @@ pub fn cleanup() {
         let rc = lib(|| unsafe { Rc::from_raw(p) });
         wd.model.borrow_mut().roots.push(t);
         wd.roots.borrow_mut().push(LoggedRc::new(rc, t));
+    }
+    loop {
+        let Some(p) = wd.wraws.borrow_mut().pop() else { break };
+        let t = wd.model.borrow_mut().wraws.pop().unwrap();
+        let wk = lib(|| unsafe { cactusref::Weak::from_raw(p) });
+        wd.model.borrow_mut().wroots.push(t);
+        wd.wroots.borrow_mut().push(LoggedWeak::new(wk, t));
     }
     loop {
         let Some(b) = wd.loose.borrow_mut().pop() else { break };
